@@ -350,7 +350,7 @@ theorem lwf_addPool {L : Ledger} (hl : LWF L) {t : Tx} {cr : List (Nat × Bool)}
   have hk := known_addPool L t
   have hmem : ∀ p, p ∈ known (addPool L t) ↔ p ∈ known L ∨ p = (t, none) := by
     intro p; rw [hk]; simp
-  refine ⟨hl.heights, ?_, hl.creditKeys, ?_, ?_, hl.noDouble, ?_, ?_, ?_, ?_⟩
+  refine ⟨hl.heights, ?_, hl.creditKeys, ?_, ?_, hl.noDouble, ?_, ?_, ?_, ?_, hl.leaseKeys⟩
   · rw [hk, List.map_append, List.nodup_append]
     refine ⟨hl.hashes, by simp, ?_⟩
     intro a ha b hb
@@ -413,7 +413,8 @@ theorem refines_addPool {s : Store} {L : Ledger} (hg : Good s L) {t : Tx} {cr : 
       (addPool L t) := by
   have hr := hg.ref
   rw [foldl_put_eq]
-  refine ⟨hr.blocks, hr.txrecs, ?_, hr.credits, hr.debits, ?_, ?_, ?_, hr.leases, hr.nodupTxrecs, ?_, hr.nodupDebits⟩
+  refine ⟨hr.blocks, hr.txrecs, ?_, hr.credits, hr.debits, ?_, ?_, ?_, hr.leases, hr.nodupTxrecs, ?_, hr.nodupDebits,
+    hr.nodupLocked⟩
   · intro k v
     show (s.unmined.insert t.hash t).find? k = some v ↔ _
     rw [find?_insert, mem_expUnmined]
@@ -542,7 +543,7 @@ theorem good_addCredit_unmined {s : Store} {L : Ledger} (hg : Good s L) {t : Tx}
       exact nodupKeys_insert _ _ _ hg.wf2.wf.nodupUC
     · have hl0 := hg.lwf
       refine ⟨hl0.heights, hl0.hashes, ?_, ?_, hl0.poolNoCb, hl0.noDouble, hl0.parents, hl0.rank,
-        hl0.validRefs, hl0.outsBound⟩
+        hl0.validRefs, hl0.outsBound, hl0.leaseKeys⟩
       · rw [hL, List.map_append, List.nodup_append]
         refine ⟨hl0.creditKeys, by simp, ?_⟩
         intro a ha b hb
@@ -556,7 +557,7 @@ theorem good_addCredit_unmined {s : Store} {L : Ledger} (hg : Good s L) {t : Tx}
         · exact hl0.creditKnown p hp
         · exact ⟨(t, none), known_of_pool ht, rfl, hc⟩
     · refine ⟨hr.blocks, hr.txrecs, hr.unmined, ?_, hr.debits, ?_, hr.uinputs, hr.uinputsNE, hr.leases, hr.nodupTxrecs,
-        hr.nodupUnmined, hr.nodupDebits⟩
+        hr.nodupUnmined, hr.nodupDebits, hr.nodupLocked⟩
       · intro k v
         show s.credits.find? k = some v ↔ _
         rw [hr.credits_iff, mem_expCredits]
